@@ -488,7 +488,7 @@ func zs(xs []int64) string {
 	for i, x := range xs {
 		el[i] = strconv.FormatInt(x, 10)
 	}
-	return "[" + strings.Join(el, "; ") + "]"
+	return "(tz [" + strings.Join(el, "; ") + "]%uint63)"
 }
 
 func zlit(x int64) string {
